@@ -17,10 +17,10 @@ def gen_cases(ctx, out):
     n = 0
     stats = []
     with open(out, "w") as f:
-        runs = [("Balance.gen2.cfg", None)]
+        runs = [("Balance.gen2.cfg", None), ("Balance.ident1.cfg", None), ("Balance.ident2.cfg", None)]
         if ctx.tier == "thorough":
             runs.append(("Balance.gen3p.cfg", None))
-            runs.append(("Balance.sim.cfg", "num=%d" % 2000))
+            runs.append(("Balance.sim.cfg", "num=%d" % 5000))
         else:
             runs.append(("Balance.sim.cfg", "num=%d" % 60))
         for cfg, sim in runs:
@@ -51,7 +51,7 @@ def run(ctx, pid, clauses):
     ctx.need_go(rc, out, "balance replay")
     trace = os.path.join(outdir, "trace.ndjson")
     summary = json.load(open(os.path.join(outdir, "summary.json")))
-    rs = ctx.tlc_trace("BalanceTrace", "BalanceTrace.cfg", trace, shards=12)
+    rs = ctx.tlc_trace("BalanceTrace", "BalanceTrace.cfg", trace, shards=16)
     allv = []
     nplans = 0
     for r in rs:
